@@ -205,10 +205,11 @@ Proof.
   - intros m' d ntp [H0 H]. split; [exact H0|]. unfold createFirstSegment. cbn [set_stream m_cfg m_streams].
     apply Forall_map. eapply Forall_impl; [|exact H]. intros s [Ha Hb].
     split; unfold published, stream_createFirst; simpl; auto. intros g [= <-]. simpl. exact H0.
-  - apply GS_rotp.
+  - intros; now apply GS_rotp.
   - apply GS_rots.
   - intros m' i l both [H0 H]. split; [exact H0|]. unfold upd_stream. cbn [set_stream m_cfg m_streams].
-    apply Forall_upd; [exact H|]. intros s _ Hs. apply size_ok_with; auto.
+    apply Forall_upd; [exact H|]. intros s _ Hs. unfold copy_targets. destruct (st_leading s); [exact Hs|].
+    apply size_ok_with; auto.
   - intros m' ti si smp m'' [H0 H]. unfold part_writeSample.
     destruct (nth_error (m_streams m') si) as [s|] eqn:Es; [|intros [= <-]; split; assumption].
     destruct (nth_error (m_tracks m') ti) as [t|]; [|intros [= <-]; split; assumption].
